@@ -397,7 +397,8 @@ def check(prop, tier, seed, only=None, only_bin=None):
         tier = "thorough"
         log("[%s] anchored source differs from the baseline in %d place(s) (%s%s): escalating the correspondence run to "
             "the thorough generators" % (prop, len(drifted), ", ".join(drifted[:4]), " ..." if len(drifted) > 4 else ""))
-    cov.update(source_drift=drifted, correspondence_tier=tier)
+    cov.update(source_drift=drifted, correspondence_tier=tier,
+               anchored_functions_not_named_by_any_harness=ANCHORS.not_named(prop, REPO))
 
     # ---- 2. harness from the current /repo tree ------------------------------------
     all_cases, all_aborts, build_fail = [], [], None
